@@ -69,3 +69,8 @@ CHECKS['C09'] = dict(
     text='8k generated edit histories per quick run (200k thorough) over insertRule/add/deleteRule/cssText/encoding/namespace operations on sheets and nested @media/@page lists in both error modes, and all ~2k one- and two-step histories; the invariant (charset first, import < namespace < rules, allowed kinds in nested lists, parent links, removed objects detached, reparse keeps all rules) is evaluated after every step. Exploration (short histories exhaustive).',
     note='Trusted: the invariant code; only DOMException counts as rejection; text assignment to an attached @namespace rule is left to C15; @variables order relative to @namespace not asserted.',
 )
+CHECKS['C15'] = dict(
+    technique='stateful property-based testing (Hypothesis operation sequences on two sheets) with namespace invariants after every step: mapping == rules, used URIs declared, (URI, local name) pairs of all selectors invariant, serialisation re-resolves identically',
+    text='8k histories per quick run (200k thorough) of mapping set/delete, @namespace insert/delete, prefix change, namespaced rule add (text/object), selector edits, moves between sheets and detach/edit/re-attach in both error modes; five literal scenarios for repaired and listed defects. Exploration.',
+    note='Trusted: invariant code; selector meaning read from Selector.seq tuples; default-namespace URI changes and moves needing an undeclared namespace are excluded (findings F15-1/2).',
+)
